@@ -34,14 +34,16 @@ JwtPerms(u) == IF P[u] = {} THEN {Logon} ELSE P[u]
 Req(form, method, sub, sp, ip) == [form |-> form, method |-> method, sub |-> sub, subperms |-> sp, idperms |-> ip]
 
 (* tokens/JWTs that are expired, tampered with or revoked belong to the users
-   who hold the most, so that honouring one would show                        *)
+   who hold the most, so that honouring one would show.  A dead native token
+   costs the server an Argon2id key derivation per request: one owner (root). *)
 Strong == {"u_pq", "u_root"}
+TokenStrong == {"u_root"}
 
 Requests ==
      {Req(f, m, "", {}, {}) : f \in {"none", "malformed", "badscheme"}, m \in Methods}
 \cup {Req("basic_unknown", "GET", "nobody", {}, {})}
 \cup {Req(f, "GET", u, P[u], P[u]) : f \in {"basic_wrong", "basic_right", "token_valid"}, u \in Users}
-\cup {Req(f, "GET", u, P[u], P[u]) : f \in {"token_expired", "token_tampered", "token_revoked"}, u \in Strong}
+\cup {Req(f, "GET", u, P[u], P[u]) : f \in {"token_expired", "token_tampered", "token_revoked"}, u \in TokenStrong}
 \cup {Req(f, "POST", u, P[u], P[u]) : f \in BodyForms, u \in Users}
 \cup {Req("body_right", "GET", u, P[u], P[u]) : u \in Strong}
      \* a JWT names a subject and carries claims; the subject may also be a local user holding more or less
